@@ -62,6 +62,16 @@ def wrap_indent(wrap) -> str:
     return {"if": "    ", "forever": "    ", "while": "    ", "case": "        "}.get(wrap, "")
 
 
+# what the main routine ends with before `end;`: nothing, or loops whose condition is written as an operation (the
+# operation is only the template of the branch op; its number is taken while the routine is collected)
+MAIN_TAILS = [
+    [],
+    ["    while (BranchBit($TAIL, 3)) {", "        main_tail_w();", "    }"],
+    ["    for (main_tail_i(); BranchBit($TAIL, 1); main_tail_n();) {", "        main_tail_f();", "    }"],
+    ["    if (BranchBit($TAIL, 2)) {", "        main_tail_t();", "    }", "    switch (ProcessSpecial(1, 2, 3)) {", "        case 1:", "            main_tail_c();", "            break;", "    }"],
+]
+
+
 class Lib:
     def __init__(self):
         self.macros: dict[str, Macro] = {}
@@ -101,7 +111,7 @@ class Lib:
         return "\n".join(lines)
 
     def main_body(self) -> str:
-        lines = ["def 0 {", "    main_0();"]
+        lines = ["def 0 {"] + ([] if getattr(self, "main_starts_with_call", False) else ["    main_0();"])
         for i, (name, args) in enumerate(self.main_calls):
             wrap = self.main_wrap[i] if i < len(getattr(self, "main_wrap", [])) else None
             if wrap == "else":
@@ -116,6 +126,7 @@ class Lib:
             else:
                 lines.append(f"    ~{name}({', '.join(args)});")
             lines.append(f"    main_{i + 1}();")
+        lines += MAIN_TAILS[getattr(self, "main_tail", 0)]
         lines += ["    end;", "}"]
         return "\n".join(lines)
 
@@ -171,7 +182,8 @@ def _args(rng: random.Random, n: int, own_params: list[str], intlike_first: bool
         elif c < 0.6:
             out.append(str(rng.randint(0, 9)))
         elif c < 0.8:
-            out.append(rng.choice(["CONST_A", "$VAR_B", "ACTOR_X"]))
+            # constants, a game variable, and constants spelled like a parameter name without its sigil
+            out.append(rng.choice(["CONST_A", "$VAR_B", "ACTOR_X", "CONST_A", "$VAR_B", "ACTOR_X", "p0", "a", "ab", "v"]))
         elif c < 0.9:
             out.append(rng.choice(["'s'", '"t t"', "1.5"]))
         else:
@@ -267,6 +279,10 @@ def gen_lib(rng: random.Random, shape: str | None = None, n: int | None = None) 
         calls += [rng.choice(names)] * rng.choice([10, 12])  # more than nine expansions of one macro in one routine
     lib.main_calls = [(nm, _args(rng, len(lib.macros[nm].params), [], lib.macros[nm].early_return or bool(lib.macros[nm].use))) for nm in calls]
     lib.main_wrap = [rng.choice([None, None, None, "else", "ifnot", "case", "forever", "while"]) for _ in calls]
+    lib.main_starts_with_call = rng.random() < 0.25
+    if lib.main_starts_with_call and lib.main_wrap:
+        lib.main_wrap[0] = None
+    lib.main_tail = rng.choice([0, 0, 1, 2, 3])
     return lib
 
 
@@ -314,7 +330,7 @@ def inlined_source(lib: Lib, variants: dict[str, str] | None = None, starts: lis
         out.append(f"{ind}@ret_{k};")
         return out
 
-    lines = ["def 0 {", "    main_0();"]
+    lines = ["def 0 {"] + ([] if getattr(lib, "main_starts_with_call", False) else ["    main_0();"])
     for i, (name, args) in enumerate(lib.main_calls):
         wrap = lib.main_wrap[i] if i < len(getattr(lib, "main_wrap", [])) else None
         if wrap == "else":
@@ -329,6 +345,7 @@ def inlined_source(lib: Lib, variants: dict[str, str] | None = None, starts: lis
         else:
             lines += expand(name, list(args), "    ")
         lines.append(f"    main_{i + 1}();")
+    lines += MAIN_TAILS[getattr(lib, "main_tail", 0)]
     lines += ["    end;", "}"]
     if starts is not None:
         import re
